@@ -22,87 +22,171 @@ def pi_hook(P):
 
 def alias_wrappers(P, rep, rule="ALIAS.wrapper"):
     """in spherical coordinates the wrapper tries the point and the point shifted by 2*pi towards the other sign"""
-    rep.rule(rule, "each longitude-alias wrapper (polygon_contains_point, BoundingBox::point_inside) builds, in spherical coordinates, the "
-                   "alias point by adding +2*pi when the longitude is negative and -2*pi otherwise, and accepts the point if the "
-                   "implementation accepts the point OR its alias")
-    targets = [(F, "polygon_contains_point_implementation", 0) for F in P.funcs_named("WorldBuilder::Utilities::polygon_contains_point")]
-    for F in P.funcs.values():
-        if re.match(r"^WorldBuilder::BoundingBox<\d>::point_inside$", F.qn):
-            targets.append((F, "point_inside_implementation", None))
+    from .veceval import VecEval
+    rep.rule(rule, "each longitude-alias wrapper (polygon_contains_point, BoundingBox::point_inside), evaluated symbolically on its paths: for a "
+                   "non-spherical point it returns implementation(point); for a spherical point it returns implementation(point) || "
+                   "implementation(alias), where the alias equals the point except for the longitude component (0 of a 2D surface point, 1 of a "
+                   "3D natural point), which is L + 2*pi when L < 0 and L - 2*pi when L > 0; all other arguments are handed on unchanged")
+    targets = [(F, "polygon_contains_point_implementation") for F in P.funcs_named("WorldBuilder::Utilities::polygon_contains_point")]
+    for F in sorted(P.funcs.values(), key=lambda f: f.qn):
+        if re.match(r"^WorldBuilder::BoundingBox<\d>::point_inside$", F.qn) and F.body is not None:
+            targets.append((F, "point_inside_implementation"))
     n = 0
-    for F, impl, _ in targets:
-        if not F.params:
-            continue
-        # the point parameter: the one of type Point<...>
-        pk = [p for p in F.params if "Point<" in P.d(p).get("t", "") and "vector" not in P.d(p).get("t", "")]
+    for F, impl in targets:
+        pk = [p_ for p_ in F.params if "Point<" in P.d(p_).get("t", "") and "vector" not in P.d(p_).get("t", "")]
         if len(pk) != 1:
             rep.unknown(rule, "%s: point parameter not identified" % F.qn)
             continue
         pk = pk[0]
+        dim = int(P.d(pk)["t"].split("Point<")[1][0])
         label = F.qn + ("<%s>" % F.targs if F.targs else "")
-        shifts = [x for x in F.walk() if x.get("k") == "CompoundAssignOperator" and x.get("op") == "+="]
-        if not shifts:
-            rep.violation(rule, "%s builds no alias point" % label, F.loc, F.qn, "", "L and L+-360 degrees get different answers", key="%s|%s|none" % (rule, F.qn),
-                          witness="feature straddling the 180 meridian")
+        lon = 0 if dim == 2 else 1
+        comps = sp.symbols("p0:%d" % dim, real=True)
+        results = {}
+        broken = None
+        import itertools
+
+        def is_impl(t):
+            return getattr(getattr(t, "func", None), "__name__", "") == impl
+
+        def truth(v, asg):
+            """value of a returned expression under an assignment of truth values to the implementation calls"""
+            if v in (sp.true, True):
+                return True
+            if v in (sp.false, False):
+                return False
+            if is_impl(v):
+                return asg.get(v)
+            nm_ = getattr(getattr(v, "func", None), "__name__", "")
+            if nm_ in ("lor", "Or"):
+                vals = [truth(x, asg) for x in v.args]
+                return None if any(x is None for x in vals) else any(vals)
+            if nm_ in ("land", "And"):
+                vals = [truth(x, asg) for x in v.args]
+                return None if any(x is None for x in vals) else all(vals)
+            if isinstance(v, sp.Not):
+                t_ = truth(v.args[0], asg)
+                return None if t_ is None else (not t_)
+            return None
+        for spherical in (True, False):
+            for neg in (True, False):
+                if not spherical and not neg:
+                    continue
+                atoms = []
+                table = {}
+                restart = True
+                rounds = 0
+                while restart and broken is None:
+                    restart = False
+                    rounds += 1
+                    if rounds > 8 or len(atoms) > 6:
+                        broken = "too many undecided conditions on one path of the wrapper"
+                        break
+                    table = {}
+                    for bits in itertools.product((False, True), repeat=len(atoms)):
+                        asg = dict(zip(atoms, bits))
+                        new_atom = []
+
+                        def choose(cv, node, spherical=spherical, neg=neg, asg=asg, new_atom=new_atom):
+                            fs = getattr(cv, "free_symbols", set())
+                            if is_impl(cv):
+                                if cv not in asg:
+                                    new_atom.append(cv)
+                                    return False
+                                return asg[cv]
+                            if any(str(x).startswith("coordinate_system_of_") for x in fs):
+                                txt = str(cv)
+                                is_eq, is_ne = isinstance(cv, sp.Eq), isinstance(cv, sp.Ne)
+                                if not (is_eq or is_ne) or ("spherical" not in txt and "cartesian" not in txt):
+                                    return None
+                                t_ = spherical if "spherical" in txt else (not spherical)
+                                return t_ if is_eq else (not t_)
+                            if fs and fs <= set(comps):
+                                # the longitude has the sign of this path, every other component the opposite one: a test on the wrong
+                                # component takes the other branch
+                                pt_ = {c_: ((-1 if neg else 1) if i_ == lon else (1 if neg else -1)) for i_, c_ in enumerate(comps)}
+                                try:
+                                    return bool(cv.subs(pt_))
+                                except Exception:
+                                    return None
+                            # a condition on anything else (members, other arguments): the wrapper must be right whichever way it goes
+                            if cv not in asg:
+                                new_atom.append(cv)
+                                return False
+                            return asg[cv]
+                        V = VecEval(P, F, env={pk: tuple(comps)}, choose=choose, opaque=lambda qn, impl=impl: qn.endswith(impl))
+                        try:
+                            val = V.run_function(astq.stmts_of(F.body))
+                        except AnalysisBroken as e:
+                            broken = str(e)
+                            break
+                        for a_ in ([x for x in val.atoms(sp.Function) if is_impl(x)] if val is not None and hasattr(val, "atoms") else []) + new_atom:
+                            if a_ not in atoms:
+                                atoms.append(a_)
+                                restart = True
+                        if restart:
+                            break
+                        table[bits] = truth(val, asg)
+                results[(spherical, neg)] = (list(atoms), dict(table))
+                if broken:
+                    break
+            if broken:
+                break
+        if broken:
+            rep.unknown(rule, "%s: %s" % (label, broken))
             continue
-        ok_all = True
-        for sh in shifts:
-            n += 1
-            tgt = astq.subscript(sh["c"][0])
-            rhs = sc(sh["c"][1])
-            good = False
-            why = "shift is %s" % norm.render(P, rhs)[:60]
-            if tgt and rhs.get("k") == "ConditionalOperator":
-                c, a, b = [sc(z) for z in rhs["c"]]
-                comp = sc(tgt[1]).get("v")
-                cs = astq.subscript(c["c"][0]) if c.get("k") == "BinaryOperator" else None
-                sym = norm.Sym(P, F, inline_locals=False, hook=pi_hook(P))
-                if (c.get("k") == "BinaryOperator" and c.get("op") == "<" and cs and astq.is_ref_to(cs[0], pk) and sc(cs[1]).get("v") == comp
-                        and sc(c["c"][1]).get("v") == 0 and eq(sym(a), TWO_PI) and eq(sym(b), -TWO_PI)):
-                    good = True
-                else:
-                    why = "alias rule is `%s`" % norm.render(P, rhs)[:80]
-            if good:
-                rep.ok(rule, "%s: alias[%s] = p[%s] + (p[%s] < 0 ? 2pi : -2pi)" % (label, comp, comp, comp), F.nloc(sh), F.qn)
-            else:
-                ok_all = False
-                rep.violation(rule, "%s: %s" % (label, why), F.nloc(sh), F.qn, norm.render(P, sh)[:120],
-                              "only one of the two longitude aliases is tried", key="%s|%s|shift" % (rule, F.qn),
-                              witness="feature given with longitudes below -180 (or above 180), point on the other side")
-        # return impl(p) || impl(alias)
-        rets = [sc(x["c"][0]) for x in F.walk() if x.get("k") == "ReturnStmt" and x.get("c")]
-        ors = [r for r in rets if r.get("k") == "BinaryOperator" and r.get("op") == "||"]
-        good = False
-        if len(ors) == 1:
-            calls = [sc(z) for z in ors[0]["c"]]
-            names = []
-            argk = []
-            for cc in calls:
-                if cc.get("k") in ("CallExpr", "CXXMemberCallExpr") and P.d(cc.get("callee")).get("n") == impl:
-                    names.append(impl)
-                    args = cc["c"][1:]
-                    pa = [a for a in args if "Point<" in sc(a).get("t", "") and "vector" not in sc(a).get("t", "")]
-                    argk.append(sc(pa[0]).get("r") if pa else None)
-            good = names == [impl, impl] and pk in argk and len(set(argk)) == 2
-        # every way out of the spherical branch tries both aliases
-        early = []
-        for st in F.walk():
-            if st.get("k") == "IfStmt" and "spherical" in norm.render(P, st["c"][0]):
-                for r in F.walk(st["c"][1]):
-                    if r.get("k") == "ReturnStmt" and r.get("c") and not (sc(r["c"][0]).get("k") == "BinaryOperator" and sc(r["c"][0]).get("op") == "||"):
-                        early.append(r)
-        if early:
-            good = False
-            rep.violation(rule, "%s leaves the spherical branch by `%s`" % (label, norm.render(P, early[0])[:80]), F.nloc(early[0]), F.qn, norm.render(P, early[0])[:140],
-                          "on that path only one of the two longitude aliases is tried", key="%s|%s|early" % (rule, F.qn),
-                          witness="feature given with longitudes on the other 2*pi sheet than the query (below -180 or above 180)")
-            continue
-        if good:
-            rep.ok(rule, "%s returns %s(point) || %s(alias)" % (label, impl, impl), F.loc, F.qn)
+        n += 1
+        problems = []
+        # non-spherical: the value of implementation(point, ...)
+        def split(atoms, table):
+            """implementation calls, and the table restricted to them if it does not depend on the other (foreign) conditions"""
+            calls = [a_ for a_ in atoms if is_impl(a_)]
+            idx = [i_ for i_, a_ in enumerate(atoms) if is_impl(a_)]
+            out = {}
+            consistent = True
+            for bits, val in table.items():
+                key = tuple(bits[i_] for i_ in idx)
+                if key in out and out[key] != val:
+                    consistent = False
+                out[key] = val
+            return calls, out, consistent
+        atoms, table, cons = split(*results[(False, True)])
+        if not cons:
+            problems.append(("plain", "for a non-spherical point the result depends on more than %s(point)" % impl))
+        if len(atoms) != 1 or not all(c_ in atoms[0].args for c_ in comps) or table != {(False,): False, (True,): True}:
+            problems.append(("plain", "for a non-spherical point the wrapper is not %s(point) (calls %s)" % (impl, [str(a_)[:50] for a_ in atoms])))
+        base_args = atoms[0].args if atoms else None
+        for neg in (True, False):
+            atoms, table, cons = split(*results[(True, neg)])
+            how = "L < 0" if neg else "L > 0"
+            if not cons:
+                problems.append(("or", "for a spherical point with %s the result depends on more than the two calls of %s" % (how, impl)))
+                continue
+            plain = [a_ for a_ in atoms if all(c_ in a_.args for c_ in comps)]
+            other = [a_ for a_ in atoms if a_ not in plain]
+            if len(atoms) != 2 or len(plain) != 1 or len(other) != 1 or len(plain[0].args) != len(other[0].args):
+                problems.append(("or", "for a spherical point with %s the wrapper consults %s, not %s(point) and %s(alias)" % (how, [str(a_)[:50] for a_ in atoms], impl, impl)))
+                continue
+            want_table = {bits: any(bits) for bits in itertools.product((False, True), repeat=2)}
+            if table != want_table:
+                bad_ = [bits for bits in want_table if table.get(bits) != want_table[bits]]
+                problems.append(("or", "for a spherical point with %s the wrapper is not the disjunction of the two calls (differs for %s)" % (
+                    how, ["%s=%s, %s=%s" % ("point" if atoms[0] in plain else "alias", b_[0], "point" if atoms[1] in plain else "alias", b_[1]) for b_ in bad_][:2])))
+            diffs = [(i, sp.simplify(o_ - p_)) for i, (p_, o_) in enumerate(zip(plain[0].args, other[0].args)) if sp.simplify(o_ - p_) != 0]
+            want = TWO_PI if neg else -TWO_PI
+            pos_lon = list(plain[0].args).index(comps[lon])
+            if len(diffs) != 1 or diffs[0][0] != pos_lon or sp.simplify(diffs[0][1] - want) != 0:
+                problems.append(("shift", "for a spherical point with %s the alias differs from the point by %s (expected component %d %s 2*pi)" % (
+                    how, ["arg %d: %s" % d_ for d_ in diffs][:3], lon, "+" if neg else "-")))
+            if base_args is not None and len(base_args) == len(plain[0].args) and any(sp.simplify(x - y) != 0 for x, y in zip(base_args, plain[0].args)):
+                problems.append(("args", "the spherical and the non-spherical path hand different arguments to %s" % impl))
+        if problems:
+            for key, why in problems[:2]:
+                rep.violation(rule, "%s: %s" % (label, why), F.loc, F.qn, "", "L and L+-360 degrees get different answers / only one of the two longitude aliases is tried",
+                              key="%s|%s|%s" % (rule, F.qn, key), witness="feature given with longitudes on the other 2*pi sheet than the query (below -180 or above 180)")
         else:
-            rep.violation(rule, "%s does not return %s(point) || %s(alias)" % (label, impl, impl), F.loc, F.qn, "; ".join(norm.render(P, r)[:60] for r in rets),
-                          "one of the aliases is ignored", key="%s|%s|or" % (rule, F.qn), witness="point given as L+360")
-    rep.floor(rule, n, 2, "alias shifts")
+            rep.ok(rule, "%s: %s(point) for non-spherical points, %s(point) || %s(point with longitude +-2*pi towards zero) for spherical ones" % (label, impl, impl, impl), F.loc, F.qn)
+    rep.floor(rule, n, 2, "alias wrappers")
 
 
 def polygon_boundary(P, rep, rule="POLY.boundary"):
@@ -489,18 +573,43 @@ def closed_extent(P, rep, rule="G2.extent"):
                     if side in ("min", "max"):
                         roles[v["r"]] = side + "_depth_local"
         sub = norm.Subst(bind=roles)
+        def implied(c, truth, out):
+            """atomic comparisons (node, holds) that follow from `c` having the given truth value: conjunctions that hold,
+            disjunctions that fail, negations; a guard clause `if (!(a && b)) return;` contributes a and b like `if (a && b) {...}`"""
+            c = sc(c)
+            if c is None:
+                return
+            k_ = c.get("k")
+            if k_ == "UnaryOperator" and c.get("op") == "!":
+                implied(c["c"][0], not truth, out)
+            elif k_ == "BinaryOperator" and c.get("op") == "&&":
+                if truth:
+                    implied(c["c"][0], True, out)
+                    implied(c["c"][1], True, out)
+            elif k_ == "BinaryOperator" and c.get("op") == "||":
+                if not truth:
+                    implied(c["c"][0], False, out)
+                    implied(c["c"][1], False, out)
+            else:
+                out.append((c, truth))
         for a, i in common:
             c = info[a][1]
-            if c is None or i != 0:
+            if c is None:
                 continue
-            for x in F.walk(c):
+            atoms_ = []
+            implied(c, i == 0, atoms_)
+            for x, holds in atoms_:
                 if x.get("k") == "BinaryOperator" and x.get("op") in ("<=", ">=", "<", ">"):
                     l, r, op = norm.render(P, x["c"][0], nocast=True, subst=sub), norm.render(P, x["c"][1], nocast=True, subst=sub), x["op"]
+                    if not holds:
+                        op = {"<": ">=", "<=": ">", ">": "<=", ">=": "<"}[op]
                     if op in (">", ">="):
                         l, r, op = r, l, {">": "<", ">=": "<="}[op]
                     rels.add("%s %s %s" % (l, op, r))
-                if x.get("k") == "CallExpr" and P.d(x.get("callee")).get("qn", "").endswith("polygon_contains_point"):
-                    poly = x
+                if holds:
+                    for y in F.walk(x):
+                        if y.get("k") == "CallExpr" and P.d(y.get("callee")).get("qn", "").endswith("polygon_contains_point"):
+                            poly = y
         if fname == "Plume":
             import re as _re
             rels = {_re.sub(r"^\w+ <= (1\.0|1\.|1)$", "relative_distance_from_center <= 1.0", r_) if not r_.startswith("depth") else r_ for r_ in rels}
@@ -671,12 +780,42 @@ def alias_shift_shape(P, rep, rule="ALIAS.shift"):
                 if b.get("k") == "DeclRefExpr" and P.d(b["r"]).get("storage") == "local" and b["r"] not in F.params and "Point<" in (P.d(b["r"]).get("t") or "") \
                         and i.get("k") == "IntegerLiteral" and int(i["v"]) == 0 and "PI" in norm.render(P, y["c"][1]):
                     cands.append((y, b["r"]))
+        # per half-range: which of the candidate statements are executed there (conditions on L of the enclosing ifs), and what they give
+        by_range = {}
         for (y, var) in cands:
             n += 1
             verdicts = []
             for (lo, hi, want) in ((-TWO_PI, sp.Integer(0), TWO_PI), (sp.Integer(0), TWO_PI, -TWO_PI)):
                 mid = (lo + hi) / 2
                 holder = {}
+                # is the statement executed on this half-range?  every enclosing if whose condition is an inequality in L decides
+                executed = True
+                undecided = False
+                S0 = norm.Sym(P, F, inline_locals=False, hook=lambda nd: (pi_hook(P)(nd) if pi_hook(P)(nd) is not None else (
+                    L if (astq.subscript(nd) and sc(astq.subscript(nd)[1]).get("k") == "IntegerLiteral" and int(sc(astq.subscript(nd)[1])["v"]) == 0
+                          and "Point<" in (sc(astq.subscript(nd)[0]).get("t") or "")) else None)))
+                child = y
+                for a in F.ancestors(y):
+                    if a.get("k") == "IfStmt":
+                        c = sc(a["c"][0])
+                        in_then = any(z is child for z in F.walk(a["c"][1])) if a["c"][1] is not None else False
+                        if c.get("k") == "BinaryOperator" and c.get("op") in ("<", "<=", ">", ">="):
+                            e_ = sp.expand(S0(c["c"][0]) - S0(c["c"][1]))
+                            if not (e_.free_symbols - {L}) and L in e_.free_symbols:
+                                if _roots_inside(e_, L, lo, hi) != []:
+                                    undecided = True
+                                else:
+                                    v_ = float(e_.subs(L, mid))
+                                    t_ = {"<": v_ < 0, "<=": v_ <= 0, ">": v_ > 0, ">=": v_ >= 0}[c["op"]]
+                                    if t_ != in_then:
+                                        executed = False
+                    child = a
+                if undecided:
+                    verdicts.append(("unknown", lo, hi, "a condition around the statement changes inside the half-range"))
+                    continue
+                if not executed:
+                    verdicts.append(("skip", lo, hi, None))
+                    continue
 
                 def lin(t):
                     t = sp.expand(t)
@@ -724,6 +863,11 @@ def alias_shift_shape(P, rep, rule="ALIAS.shift"):
                     verdicts.append(("ok", lo, hi, new))
                 else:
                     verdicts.append(("bad", lo, hi, new))
+            for v in verdicts:
+                by_range.setdefault((qn, v[1], v[2]), []).append(v[0])
+            if all(v[0] == "skip" for v in verdicts):
+                n -= 1
+                continue
             if any(v[0] == "bad" for v in verdicts):
                 v = [v for v in verdicts if v[0] == "bad"][0]
                 rep.violation(rule, "%s: for %s < L < %s the alias longitude is %s" % (qn.split("::")[-1], v[1], v[2], v[3]), F.nloc(y), F.qn, norm.render(P, y)[:140],
@@ -732,7 +876,15 @@ def alias_shift_shape(P, rep, rule="ALIAS.shift"):
             elif any(v[0] == "unknown" for v in verdicts):
                 rep.unknown(rule, "%s: the alias longitude `%s` is not an expression this rule can evaluate" % (qn.split("::")[-1], norm.render(P, y)[:80]))
             else:
-                rep.ok(rule, "%s: alias longitude is L + 2*pi for L < 0 and L - 2*pi for L > 0" % qn.split("::")[-1], F.nloc(y), F.qn)
+                which = [("L < 0" if v[2] == 0 else "L > 0") for v in verdicts if v[0] == "ok"]
+                rep.ok(rule, "%s: alias longitude is L %s 2*pi (%s)" % (qn.split("::")[-1], "+-" if len(which) == 2 else ("+" if which == ["L < 0"] else "-"), ", ".join(which)), F.nloc(y), F.qn)
+        # every half-range must be served by a statement
+        for (lo, hi) in ((-TWO_PI, sp.Integer(0)), (sp.Integer(0), TWO_PI)):
+            got = by_range.get((qn, lo, hi), [])
+            if cands and got and "ok" not in got and "bad" not in got and "unknown" not in got:
+                rep.violation(rule, "%s: no alias longitude is computed for %s < L < %s" % (qn.split("::")[-1], lo, hi), F.loc, F.qn, "",
+                              "on that half of the longitudes the alias equals the point itself", key="%s|%s|range" % (rule, qn),
+                              witness="a feature written with longitudes beyond +-180 degrees and a query on the other side of the date line")
     rep.floor(rule, n, 3, "alias longitude constructions")
 
 
